@@ -375,6 +375,47 @@ def body_twin(env):
                       not ch, key='assembly_differs_from_standalone_twin')
 
 
+def body_grid_setup(env):
+    """Set-up isolation between assembly *types* in the reader: after the real check_spacergrid every type keeps exactly its own
+    spacer-grid positions that lie inside its own pin bundle (symbolic positions and bundle bounds; two or three grid-bearing
+    types plus one without grids) -- nothing of another type's input ends up in it."""
+    import dassh.read_input as ri
+    from harness.common import StubSelf
+    ntype = env.params['n_types']
+    with env.patch([ri]):
+        data = {'Setup': {'Units': {'length': 'm'}}, 'Assembly': {}}
+        want = {}
+        for t in range(ntype):
+            lo = env.real('rods_lo_%d' % t, lo=0, hi=1)
+            hi = env.real('rods_hi_%d' % t, lo=0, hi=4)
+            env.assume(hi > lo)
+            zs = [env.real('grid_%d_%d' % (t, j), lo=-1, hi=5) for j in range(2)]
+            data['Assembly']['type%d' % t] = {
+                'wire_diameter': 0.0, 'pin_pitch': 0.008, 'pin_diameter': 0.006,
+                'AxialRegion': {'rods': {'z_lo': lo, 'z_hi': hi}},
+                'SpacerGrid': {'corr': None, 'corr_coeff': None, 'loss_coeff': 1.5, 'axial_positions': list(zs), 'solidity': None}}
+            want['type%d' % t] = (lo, hi, zs)
+        data['Assembly']['plain'] = {'wire_diameter': 0.001, 'pin_pitch': 0.008, 'pin_diameter': 0.006,
+                                     'AxialRegion': {'rods': {'z_lo': 0.0, 'z_hi': 1.0}},
+                                     'SpacerGrid': {'corr': None, 'corr_coeff': None, 'loss_coeff': None, 'axial_positions': None, 'solidity': None}}
+        s_ = StubSelf(_bind=(ri.DASSH_Input, ['check_spacergrid']), data=data)
+        s_._log = []
+        s_.log = lambda lvl, msg, _s=s_: (_s._log.append((lvl, msg)), (_ for _ in ()).throw(SystemExit(1)) if lvl == 'error' else None)[0]
+        try:
+            s_.check_spacergrid()
+        except SystemExit:
+            env.stop()          # a type without any acceptable position: error exit
+        for nm, (lo, hi, zs) in want.items():
+            kept = data['Assembly'][nm]['SpacerGrid']['axial_positions']
+            inside = [(z >= lo) & (z <= hi) if env.mode == 'sym' else (lo <= z <= hi) for z in zs]
+            nin = sum(1 for b in inside if bool(b))
+            env.holds('%s keeps as many positions as it has inside its own bundle' % nm, len(kept) == nin, key='setup_state_leaks_between_types')
+            own = [z for z, b in zip(zs, inside) if bool(b)]
+            for j, z in enumerate(kept[:len(own)]):
+                env.eq('%s: kept position %d is its own' % (nm, j), z, own[j], key='setup_state_leaks_between_types')
+        env.holds('the type without grids is left alone', data['Assembly']['plain']['SpacerGrid']['axial_positions'] is None)
+
+
 def body_mesh_req(env):
     """Reactor._setup_asm_axial_mesh_req: the step requirement and the wall model chosen for an assembly do not depend on the
     assemblies set up before it.  Universe X: [A, B]; universe Y: [B'] alone (B' = B).  The per-assembly criterion
@@ -469,6 +510,8 @@ def instances(tier):
         for unrodded in (False, True):
             inst.append(dict(label='stand-alone-twin[%s,unrodded region=%s]' % ('/'.join(b.split('=')[0] for b in bcs), unrodded), body=body_twin,
                              params={'bcs': bcs, 'unrodded': unrodded}, check_vacuity=False))
+    for nt in (2, 3):
+        inst.append(dict(label='spacer-grid-setup[%d grid-bearing types]' % nt, body=body_grid_setup, params={'n_types': nt}, max_paths=4000, max_depth=60))
     for pin in (True, False):
         for unrodded in (False, True):
             inst.append(dict(label='advance-one[reactor,4 assemblies of 2 types,pin model=%s,unrodded region=%s]' % (pin, unrodded), body=body_advance,
